@@ -36,6 +36,15 @@ CHECKS.update({
  'C18': mgr('model_checking', 'DESIGN.md 3/C18', '2-3 transfers of different types on one manager, one failing (each fault site) or cancelled, followed by shutdown / with-exit / a fresh transfer; nothing happens after shutdown returns, bystanders succeed.'),
 })
 
+CHECKS.update({
+ 'C14': dict(level='exploration', design='DESIGN.md 3/C14', note='Exhaustive on the stated finite domains; real scale only at the explicit boundary set. For unknown-length streams only tiling and part sizes are checked.',
+   technique='exhaustive enumeration of (size, threshold, chunk) on a scaled domain through the real submission tasks of every front-end with a recording client + exhaustive adjuster grid + explicit real-scale boundary set (plan-only mode, integer oracle)',
+   text='Every size 0..40 x threshold 1..12 x chunk 1..12 (quick: a sub-grid) for download/copy/upload (path, seekable, non-seekable), legacy S3Transfer and the process-pool submitter: ranges parsed from the issued requests must tile [0,size) with part numbers 1..n and multipart iff size >= threshold; ChunksizeAdjuster exhaustively on scaled limits; at real scale k*chunk-1/+0/+1 boundaries, 10,000-part and 5 MiB/5 GiB/5 TiB limits through the real upload/copy submission tasks without moving bytes.'),
+ 'C15': dict(level='exploration', design='DESIGN.md 3/C15', note='Expectation table written by hand from the statement and the installed botocore S3 model; at most one full-object checksum per case.',
+   technique='exhaustive enumeration of (front-end, method, mode, size known?, checksum-calculation setting, extra_args) cases executed on the real code; every call validated by botocore ParamValidator and compared with an expectation table derived from the S3 model',
+   text='Every allowed argument as a singleton, all at once, every subset of the checksum family and a disallowed name, for every transfer method/mode of TransferManager, legacy S3Transfer and the process-pool submitter; each operation must receive exactly the arguments its input shape has, unmodified, including the abort cleanup.'),
+})
+
 def main():
     checks = []
     for p in props:
